@@ -57,8 +57,11 @@ Results(o) == CASE o = "qbid"   -> FoundStates \cup {"notfound", "err"}
 \* closed: this order closed; lost / won: lease created for another provider / for us; other: lease of another
 \* group; xclosed: another order closed; created: the order-created event of this very order seen again (the
 \* service must not start a second monitor for it, the monitor itself ignores it)
-EvKinds == {"closed", "lost", "won", "other", "xclosed", "created"}
-Ignorable == {"other", "xclosed", "created"}
+\* xowner / xownerp: a lease of ANOTHER tenant's order with the same dseq/gseq/oseq, to this provider / to another
+\* provider (dseq defaults to the block height: two tenants deploying in one block collide); xdseq: a lease of another
+\* deployment of the same tenant with the same gseq/oseq, to this provider.  None of them is a lease of this order.
+EvKinds == {"closed", "lost", "won", "other", "xclosed", "created", "xowner", "xownerp", "xdseq"}
+Ignorable == {"other", "xclosed", "created", "xowner", "xownerp", "xdseq"}
 
 VARIABLES
     pc,          \* "loop" | "exit" | "x_unres" | "exit_u" | "x_close" | "exit_c" | "done"
